@@ -375,6 +375,30 @@ class Check:
         self.cov["traces_validated_against_impl"] += len({e.get("tid") for e in events})
         return bad
 
+    def record_suite(self, what: str, tests: list, timeout: int = 1200) -> list:
+        """Run some of the repository's own unit tests with lib.suite_recorder switched on and return the recorded events
+        (observed executions of the real code, to be validated against a trace specification).  The tests come from the tree
+        under check when it has them (DARSIA_REPO/tests), else from /repo/tests, and always import darsia from DARSIA_REPO/src.
+        The outcome of the tests themselves is not a verdict of ours; a run that records nothing is a machinery failure."""
+        repo = os.environ.get("DARSIA_REPO", "/repo")
+        troot = repo if os.path.isdir(os.path.join(repo, "tests", "unit")) else "/repo"
+        out = os.path.join(self.work, f"suite-{what.replace(',', '-')}.ndjson")
+        env = dict(os.environ)
+        env.update({"DARSIA_VERIF_TRACE": out, "DARSIA_VERIF_RECORD": what, "DARSIA_VERIF": "1",
+                    "PYTHONPATH": os.pathsep.join([VERIF, os.path.join(repo, "src")])})
+        cmd = [sys.executable, "-W", "ignore", "-m", "pytest", "-q", "-p", "no:cacheprovider", "-p", "lib.suite_recorder"] + \
+              [os.path.join(troot, "tests", "unit", t) for t in tests]
+        try:
+            p = subprocess.run(cmd, cwd=self.work, capture_output=True, text=True, timeout=timeout, env=env)
+        except subprocess.TimeoutExpired:
+            raise MachineryError("recording the repository's unit tests timed out")
+        evs = [json.loads(line) for line in open(out)] if os.path.exists(out) else []
+        if not evs:
+            raise MachineryError(f"the repository's unit tests recorded nothing for {what}:\n{p.stdout[-1500:]}{p.stderr[-500:]}")
+        m = re.search(r"(\d+) passed", p.stdout)
+        self.cov.setdefault("suite_traces", []).append({"recorded": what, "tests": tests, "events": len(evs), "pytest": (p.stdout.strip().splitlines() or [""])[-1][:120]})
+        return evs
+
     # -------------------------------------------------------------- verdicts
     def violation(self, signature: str, what: str, detail=None):
         self.violations.append({"signature": signature, "what": what, "detail": detail})
